@@ -215,6 +215,7 @@ type vc18U struct {
 	dead   bool // the real code refused one of its own blocks: stop this universe
 	assetWeight int // share of asset transactions (out of 20 + assetWeight + appWeight)
 	appWeight   int // share of application calls
+	probePct    int // share of "write again, then fail" groups
 	appids      []uint64                   // application ids created so far (ascending)
 	appAddr     map[basics.Address]uint64  // application account -> application id
 	prog        []byte                     // the interpreter program
@@ -279,7 +280,8 @@ func (u *vc18U) appRows(creator func(uint64) (basics.Address, bool), params func
 		for i, a := range u.addrs {
 			if p, ok := params(a, id); ok {
 				rows = append(rows, vL(1, i+1, id, p.GlobalStateSchema.NumUint, p.GlobalStateSchema.NumByteSlice,
-					p.LocalStateSchema.NumUint, p.LocalStateSchema.NumByteSlice, uint64(p.ExtraProgramPages), u.id(p.SizeSponsor)))
+					p.LocalStateSchema.NumUint, p.LocalStateSchema.NumByteSlice, uint64(p.ExtraProgramPages), u.id(p.SizeSponsor),
+					p.ForeignBoxReads, p.FamilyBoxAccess))
 				if stored {
 					for _, k := range []int{1, 2, 3, 4} {
 						if v, ok := p.GlobalState[vc18Key(k)]; ok {
@@ -1099,10 +1101,11 @@ func (u *vc18U) genAsset(ev *BlockEvaluator, tx *transactions.Transaction, s int
 //   9 inner asset transfer(asset index a, amount b, receiver account c, fee d, close-to account e-1 if e>0)
 //  10 err   11 reject (return 0)   12 burn the opcode budget
 //  13 inner opt-in of the application account to asset index a (fee d)
+//  14 app_params_set(field a: 0 ForeignBoxReads, 1 FamilyBoxAccess; value b)
 // Box name i = the first i bytes of "wxyz", state key k = itob(k), values: 7 or "v".
 // Accounts are indexes into txn Accounts (0 = sender), assets into txn Assets.
 // A creation call (ApplicationID = 0) approves without running anything.
-const vc18Interpreter = `#pragma version 10
+const vc18Interpreter = `#pragma version 13
 txn ApplicationID
 bz approve
 int 0
@@ -1146,7 +1149,7 @@ int 41
 getbyte
 store 9
 load 2
-switch bad o1 o2 o3 o4 o5 o6 o7 o8 o9 o10 o11 o12 o13
+switch bad o1 o2 o3 o4 o5 o6 o7 o8 o9 o10 o11 o12 o13 o14
 bad:
 err
 o1:
@@ -1279,6 +1282,15 @@ b next
 setmore:
 int 1
 store 7
+b next
+o14:
+load 4
+load 3
+bnz o14b
+app_params_set AppForeignBoxReads
+b next
+o14b:
+app_params_set AppFamilyBoxAccess
 b next
 o10:
 err
@@ -1422,6 +1434,12 @@ func (u *vc18U) describeApp(t transactions.Transaction) []interface{} {
 				}
 				inner = append(inner, vL(d, vL(vSym("axfer"), as, 0, 0, 1000000+uint64(t.ApplicationID), 0)))
 				flush(more)
+			case 14:
+				if a > 1 {
+					fail()
+					break argloop
+				}
+				ops = append(ops, vL(vSym("ps"), a, b != 0))
 			case 11:
 				accept = false
 				break argloop
@@ -1598,6 +1616,8 @@ func (u *vc18U) genApp(ev *BlockEvaluator, tx *transactions.Transaction, s int) 
 			arg = vc18Arg(2, boxName(true), 0, 0, 0, 0, false)
 		case o < 11:
 			arg = vc18Arg(3, boxName(true), uint64(r.Intn(64)), 0, 0, 0, false)
+		case o >= 12 && o < 14: // app_params_set
+			arg = vc18Arg(14, uint64(r.Intn(2)), uint64(r.Intn(2)), 0, 0, 0, false)
 		case o < 16:
 			ty := uint64(r.Intn(2))
 			if !sloppy { // a type the schema still has room for
@@ -1674,6 +1694,65 @@ var vc18Faults = []string{"overspend", "minbal", "dead_early", "dead_late", "dup
 func (u *vc18U) genGroup(ev *BlockEvaluator, rnd basics.Round, faultPct int, inBlock, prevBlock [][]transactions.SignedTxn) ([]transactions.SignedTxn, string, int) {
 	r := u.r
 	p := ev.proto
+	// "write again, then fail": fresh copies (new notes, hence new txids) of the transactions of a
+	// group accepted earlier in THIS block -- so every record they write (account data, asset params /
+	// holdings, app params / global / local state, boxes) already has an entry in an ancestor cow --
+	// with app_params_set values inverted, followed by a member that overspends.  Whatever the
+	// copies wrote must be gone afterwards (no write may reach an ancestor's record in place).
+	if len(inBlock) > 0 && r.Intn(100) < u.probePct {
+		src := inBlock[r.Intn(len(inBlock))]
+		for k := 0; k < 4; k++ { // prefer groups that set application parameters
+			c := inBlock[r.Intn(len(inBlock))]
+			has := false
+			for _, st := range c {
+				for _, a := range st.Txn.ApplicationArgs {
+					if len(a) == 42 && a[0] == 14 {
+						has = true
+					}
+				}
+			}
+			if has {
+				src = c
+				break
+			}
+		}
+		if len(src) < p.MaxTxGroupSize {
+			var txs []vc18Tx
+			for _, st := range src {
+				tx := st.Txn
+				tx.Note, tx.Lease, tx.Group = u.note(), [32]byte{}, crypto.Digest{}
+				tx.FirstValid, tx.LastValid = rnd, rnd+5
+				if len(tx.ApplicationArgs) > 0 {
+					args := make([][]byte, len(tx.ApplicationArgs))
+					for i, a := range tx.ApplicationArgs {
+						args[i] = append([]byte(nil), a...)
+						if len(a) == 42 && a[0] == 14 {
+							args[i][16] ^= 1 // operand b (the value) is bytes 9..16
+						}
+					}
+					tx.ApplicationArgs = args
+				}
+				txs = append(txs, vc18Tx{tx: tx, signer: u.signerFor(ev, u.id(tx.Sender)-1)})
+			}
+			var bad transactions.Transaction
+			bs := u.user()
+			bal, _ := u.balance(ev, bs)
+			bad.Type, bad.Sender, bad.Receiver = protocol.PaymentTx, u.addrs[bs], u.addrs[2]
+			bad.Fee.Raw, bad.Amount.Raw = p.MinTxnFee, bal+1
+			bad.FirstValid, bad.LastValid, bad.GenesisHash, bad.Note = rnd, rnd+5, u.l.gh, u.note()
+			txs = append(txs, vc18Tx{tx: bad, signer: u.signerFor(ev, bs)})
+			var g transactions.TxGroup
+			for i := range txs {
+				g.TxGroupHashes = append(g.TxGroupHashes, crypto.Digest(txs[i].tx.ID()))
+			}
+			stxs := make([]transactions.SignedTxn, len(txs))
+			for i := range txs {
+				txs[i].tx.Group = crypto.HashObj(g)
+				stxs[i] = txs[i].tx.Sign(u.keys[txs[i].signer])
+			}
+			return stxs, "probe_rewrite_then_fail", len(txs) - 1
+		}
+	}
 	// resubmission of a whole group accepted earlier (txids include the group id, so a
 	// committed transaction can only reappear with its original group)
 	if r.Intn(100) < faultPct/8+1 {
@@ -1956,6 +2035,7 @@ type vc18Opts struct {
 	assetWeight               int
 	appWeight                 int
 	panicPct                  int // share of groups with an injected panic (no tracer involved)
+	probePct                  int // share of "write again, then fail" groups
 	file                      string
 	salt                      uint64
 }
@@ -1969,6 +2049,7 @@ func vc18Run(t *testing.T, o vc18Opts) {
 		u := vc18NewUniverse(t, r, st)
 		u.assetWeight = o.assetWeight
 		u.appWeight = o.appWeight
+		u.probePct = o.probePct
 		var prevBlock [][]transactions.SignedTxn
 		for b := 0; b < o.blocks && !u.dead; b++ {
 			prevBlock = u.block(t, out, o, prevBlock)
@@ -2065,6 +2146,10 @@ func (u *vc18U) block(t *testing.T, out *vOut, o vc18Opts, prevBlock [][]transac
 		code := vc18ErrClass(err)
 		if code == 99 {
 			t.Fatalf("unclassified group error %v", err)
+		}
+		if code == 15 && loopAt < 0 && sab == 0 {
+			st["panic_not_injected"]++
+			t.Logf("round %d group %d (%s): panic that was NOT injected: %v", rnd, gi, fault, err)
 		}
 		if ev.corruptedState {
 			st["groups_on_corrupted"]++
@@ -2165,7 +2250,7 @@ func (u *vc18U) block(t *testing.T, out *vOut, o vc18Opts, prevBlock [][]transac
 
 func TestVerifC18(t *testing.T) {
 	vc18Run(t, vc18Opts{universes: vEnvInt("VERIF_C18_UNIVERSES", 12), blocks: vEnvInt("VERIF_C18_BLOCKS", 8),
-		groups: vEnvInt("VERIF_C18_GROUPS", 10), faultPct: vEnvInt("VERIF_C18_FAULTPCT", 25), assetWeight: vEnvInt("VERIF_C18_ASSETS", 8), appWeight: vEnvInt("VERIF_C18_APPS", 16), panicPct: vEnvInt("VERIF_C18_PANICS", 2),
+		groups: vEnvInt("VERIF_C18_GROUPS", 10), faultPct: vEnvInt("VERIF_C18_FAULTPCT", 25), assetWeight: vEnvInt("VERIF_C18_ASSETS", 8), appWeight: vEnvInt("VERIF_C18_APPS", 16), panicPct: vEnvInt("VERIF_C18_PANICS", 2), probePct: vEnvInt("VERIF_C18_PROBES", 4),
 		file: "cases_c18.txt", salt: 0xC18})
 }
 
